@@ -23,6 +23,8 @@ def targets(tier):
 	for dt in ('i1', 'i2', 'i4', 'i8', 'u1', 'u2', 'u8', 'b1', 'f8'):
 		t.append((IX + '__getitem__', f'ndarray[{dt}]', {'index': NdArr(dt)}))
 	t.append((IX + '__getitem__', 'list', {'index': SeqOf(Int, ref=True)}))
+	for q in ('SignatureList.__len__', 'SignatureList._getitem_int', 'SignatureList.__setitem__', 'ConcatenatedSignatureArray.__len__', 'ConcatenatedSignatureArray._getitem_int'):
+		t.append((SB + q, None, None, indexing.register_hooks))
 	t.append((IX + '__getitem__', 'emptylist', {'index': indexing._EmptyList()}))
 	return t
 TRUSTED = []
@@ -36,3 +38,12 @@ def register(reg):
 
 def bounded(run, run_oracle):
 	return run_oracle('C20', run.repo_root, {'op': 'bounded', 'tier': run.tier, 'seed': run.seed})
+
+
+TRUSTED = [
+	'NumPy: asarray of a list of ints (int64), array < scalar (element-wise), ndarray.any, astype (C conversion, new array), np.add(out=, where=) in the output dtype\'s fixed width, flatnonzero (increasing positions of the non-zero entries), arange; slice.indices (PySlice_AdjustIndices); basic slicing of a 1-d array is a view',
+	'len() of a sequence is < 2^63 (Py_ssize_t)',
+	'the hooks a subclass provides are abstract in the mixin proof (ITEM / clen); SignatureList.__len__/_getitem_int/__setitem__ and ConcatenatedSignatureArray.__len__/_getitem_int are verified to implement them over the list / (values, bounds) representation',
+	'BOUNDED only (real code against plain lists, labelled): _getitem_int_array of both containers, the contiguous-slice fast path, SignatureArray construction, HDF5-backed collections, __delitem__/insert, equality (sigarray_eq / __eq__), 2-d and object index arrays',
+]
+ASSUMPTIONS = TRUSTED
